@@ -149,7 +149,7 @@ func (x *Ctx) nullness(ms *spec.Msg, mv reflect.Value, obj types.Object, path, i
 			}
 		}
 	}
-	if ms.Empty {
+	if ms.Placeholder {
 		if av, ok := obj.Attrs["active"]; ok && av != nil && !av.IsNull() {
 			x.Violate("nullness/placeholder/want-null=true", in, path+".active: placeholder is not null", map[string]interface{}{"attr": dumpTF(av)})
 		}
